@@ -118,7 +118,7 @@ func runC10(c c10Case) vh.Result {
 			acksDone.Add(1)
 		}
 	})
-	script := &peer.Script{Mechs: []string{"PLAIN"}, OfferSM: true, SMId: smID}
+	script := &peer.Script{Mechs: []string{"PLAIN"}, OfferSM: true, ExpectEnable: true, SMId: smID}
 	srv, err := peer.Listen(func(pc *peer.Conn) {
 		out := pc.Negotiate(script, 10*time.Second)
 		ready <- out
